@@ -51,6 +51,8 @@ fn class(e: &nervusdb_storage::Error) -> &'static str {
 impl State for S {
     fn step(&mut self, ws: &[&str]) -> String {
         match ws {
+            // one owner at a time: a second open while a handle is alive is not part of any generated history
+            ["eopen"] | ["wopen"] if self.eng.is_some() || self.wal.is_some() => "bad-op".into(),
             ["wopen"] => match Wal::open(self.wal_path()) {
                 Ok(w) => {
                     self.wal = Some(w);
